@@ -439,11 +439,11 @@ theorem uclose_start {g : Cfg} {c : Conn} {r : AReq} (hph : c.phase = .closing r
 
 /-- One poll that starts inside the (write-only) handler. -/
 theorem uhandler_core {g : Cfg} (ok : UOK g) {c : Conn} {r : AReq} {h : HState} (hph : c.phase = .handler r h)
-    (hout : HOut g.Wc (fun _ _ _ => False) c.env (handlerPoll (handlerFuel c.env r) r h c.env))
+    (hout : HOut g.Wc (fun _ _ _ => False) c.env (handlerPoll ((handlerFuel c.env r + scriptOf c)) r h c.env))
     (hb : Ben c.env.tr) (hstop : c.stop = false) (hev : Ev1 g c.env.tr) (hsc : c.scripts = g.more) :
     URes g 4 c := by
   have hstep := C07.handler_step c r h hph
-  rcases hhp : handlerPoll (handlerFuel c.env r) r h c.env with ⟨r', h', e', res⟩
+  rcases hhp : handlerPoll ((handlerFuel c.env r + scriptOf c)) r h c.env with ⟨r', h', e', res⟩
   rw [hhp] at hstep hout
   obtain ⟨hts, hsegs, hres⟩ := hout
   simp only at hts hsegs hres
@@ -487,8 +487,8 @@ theorem ufirst_poll {g : Cfg} (ok : UOK g) {c : Conn} {e1 : Bytes}
   rcases ok.mode with ⟨hs, hdata⟩ | hs
   · -- `[.ret st]`
     have hstep := C07.handler_step c _ _ hph
-    obtain ⟨f, hf⟩ : ∃ f, handlerFuel c.env (AReq.new (Str.Parser.fromParser g.cap g.p.request e1 g.mc)) = f + 1 :=
-      ⟨handlerFuel c.env (AReq.new (Str.Parser.fromParser g.cap g.p.request e1 g.mc)) - 1, by omega⟩
+    obtain ⟨f, hf⟩ : ∃ f, (handlerFuel c.env (AReq.new (Str.Parser.fromParser g.cap g.p.request e1 g.mc)) + scriptOf c) = f + 1 :=
+      ⟨(handlerFuel c.env (AReq.new (Str.Parser.fromParser g.cap g.p.request e1 g.mc)) + scriptOf c) - 1, by omega⟩
     rw [hs, hf, hp_ret] at hstep
     have hstep' : stepConn c = .next ⟨.closing (AReq.new (Str.Parser.fromParser g.cap g.p.request e1 g.mc)) .start g.st 0,
         c.env.ev s!"HE(ok:{showStatus g.st})", c.scripts, c.stop⟩ := hstep
